@@ -35,7 +35,7 @@ def main():
             "baseline_off_cmd": "cd /repo && GOFLAGS=-mod=mod GOPROXY=off GOSUMDB=off GOTOOLCHAIN=local "
                                 "go test -json -vet=off -count=1 -timeout 25m ./...",
             "source_commits": [l.split()[0] for l in hooks_commits],
-            "add_only": True,
+            "add_only": False,
         },
         "engines": [
             {"name": "tlc", "path": "/opt/veriftools/tla/tla2tools.jar",
@@ -48,7 +48,7 @@ def main():
                                "TLC-generated cases/schedules into the real code, trace recording through internal/vhook"},
         ],
         "checks": [],
-        "notes": "Driver: ./check <ID> quick|thorough. Verdicts come only from the behaviour of the real code "
+        "notes": "hooks.add_only is false for ONE line: the one-line closure 'go func() { a.NextLinesCh <- oldLinesCh }()' in mapr/server/aggregate.go was expanded to several lines to carry two trace points (identical behaviour with the tag off); every other hook is an added line. Driver: ./check <ID> quick|thorough. Verdicts come only from the behaviour of the real code "
                  "(see DESIGN.md 2.3); exit 2 = inconclusive (build failure, timeout), never a violation.",
         "not_applicable": [],
     }
